@@ -148,6 +148,8 @@ class World:
 
     def __init__(self):
         self.events = []
+        self.handover = []  # children a step started (a few steps) and left unfinished: finished by the environment at top level
+        self.adoptable = []  # processes the environment started at top level, to be finished from inside some process's step
         self.tokens = []  # Token objects handed to Continue by steps (identity is checked by the receiving step)
         self.site_hook = None  # callable(proc, site, count): the environment acting from inside user code (e.g. a pause)
         self.fault = None  # (site, occurrence) -> raise InjectedFault there
@@ -383,6 +385,30 @@ def _make_step(index, step, world, plumpy):
                         await child.step_until_terminated()
                         world.rec('after_nested', label(self), child._sim_label, plumpy.Process.current() is self, None,
                                   child.state.value)
+                    elif eff['e'] == 'start_child':
+                        # the step takes a child through its first step(s) only; somebody else finishes it later, from
+                        # another task and another context
+                        child_cls = self.__class__._children[eff['child']]
+                        world.child_serial = getattr(world, 'child_serial', 0) + 1
+                        child = child_cls(loop=self.loop)
+                        child._sim_label = f'{label(self)}.c{world.child_serial}'
+                        world.children.append(child)
+                        world.parent_of[id(child)] = self
+                        for _ in range(eff.get('n', 1)):
+                            if not child.has_terminated():
+                                await child.step()
+                        world.rec('after_nested', label(self), child._sim_label, plumpy.Process.current() is self, None,
+                                  child.state.value)
+                        if not child.has_terminated():
+                            world.handover.append(child)
+                    elif eff['e'] == 'adopt':
+                        # the step finishes a process that took its first steps at top level
+                        if world.adoptable:
+                            target = world.adoptable.pop(0)
+                            if not target.has_terminated():
+                                await target.step_until_terminated()
+                            world.rec('after_nested', label(self), label(target), plumpy.Process.current() is self, None,
+                                      target.state.value)
                     else:
                         _do_effect(self, world, eff, plumpy)
                 if gi < len(awaits):
